@@ -112,9 +112,8 @@ def contract_unit(c, tier='quick', probe=False, world_setup=None):
                     and o['kind'] in ('post', 'raises')]
         # (also when the symbolic run left the encoding because a length
         # was symbolic: the unrolled runs have concrete lengths)
-        no_inv = any(('without invariant' in (o.get('detail') or '') or
-                      'concrete length' in (o.get('detail') or ''))
-                     and o['status'] == 'unknown' for o in out)
+        no_inv = any(o['status'] == 'unknown' and o['kind'] == 'encoding'
+                     for o in out)
         if shaky and (c.loops or no_inv) and not probe and not definite:
             rbudget = Budget(branch_ms=1000, prove_ms=3000, max_paths=80,
                              wall_s=40)
